@@ -151,6 +151,21 @@ def run(rep: Report, repo: Repo):
 
     rep.rule('C17.none', 'a traversal that dereferences an element of X.ins / X.outs guards it with an `is None` test')
     rep.rule('C17.count', 'readiness and source tests count connected (non-None) pins, never len() of a pin list')
+    # the visit counters are compared with the number of connected pins of a node: a fixed-width counter must be able to hold it
+    WIDE = {'np.uint32', 'np.int32', 'np.int64', 'np.uint64', 'np.intp', 'np.uintp', 'int', 'np.int_', "'int32'", "'uint32'", "'int64'", "'uint64'"}
+    nctr = 0
+    for q, f in fns.items():
+        compared = {norm(c.left.value) for c in find_all(f, ast.Compare) if isinstance(c.left, ast.Subscript) and isinstance(c.left.value, ast.Name)}
+        for st in find_all(f, ast.Assign):
+            if len(st.targets) == 1 and isinstance(st.targets[0], ast.Name) and st.targets[0].id in compared and isinstance(st.value, ast.Call) \
+                    and (call_name(st.value) or '').startswith('np.'):
+                nctr += 1
+                dt = next((norm(k.value) for k in st.value.keywords if k.arg == 'dtype'), None)
+                ok = dt is None or dt in WIDE   # numpy default is a 64-bit type
+                rep.ob('C17.count', f'{q}: counter {st.targets[0].id} dtype {dt}', ok)
+                if not ok:
+                    rep.violate('C17.count', mod, f, st, f'{q}: the per-node visit counter `{norm(st)[:80]}` is narrower than 32 bits: it wraps for a node with that many '
+                                f'connected pins, which then never becomes ready (the node and everything behind it is silently dropped)', node=st)
     nloops = 0
     for q, f in fns.items():
         for loop in find_all(f, ast.For):
